@@ -144,7 +144,7 @@ impl IdxTable {
         let lit = {
             let gen = PredGen::new(
                 &self.model,
-                GenCfg { cols: vec![col], focus: vec![], max_depth: 0, hostile_literals: true, allow_colcmp: false },
+                GenCfg { cols: vec![col], focus: vec![], max_depth: 0, hostile_literals: true, allow_colcmp: false, contains_cols: vec![] },
             );
             value_lit(rng, &gen, col)
         };
@@ -238,10 +238,9 @@ pub fn classify_index_deviation(base_sig: &str, got: &BTreeSet<i64>, exp: &BTree
             }
         }
     }
-    if cx.stable_row_ids && cx.deferred_compaction {
-        // the fragment-reuse index is applied to stable row ids as if they were addresses
-        return vec![DEFER_REMAP_SIG.into()];
-    }
+    // (fixed in /repo batch 3: deferred remap is ignored on tables with stable row ids; a deviation
+    //  after such a history is classified like any other)
+    let _ = cx.deferred_compaction;
     let mut sigs = vec![];
     let mut extra_done = extra.is_empty();
     let mut missing_done = missing.is_empty();
@@ -317,7 +316,9 @@ pub fn is_defer_remap_panic(e: &str) -> bool {
 }
 pub const ROWIDS_PANIC_SIG: &str = "stable-row-ids-mask-to-offset-ranges-range-with-bitmap-panics";
 pub fn is_rowids_panic(e: &str) -> bool {
-    e.contains("lance-table/src/rowids.rs") && e.contains("Option::unwrap()")
+    // both are consequences of the mis-indexed RangeWithBitmap branch of mask_to_offset_ranges:
+    // the bitmap iterator runs out (unwrap on None) or the offsets go backwards ("not sorted")
+    e.contains("lance-table/src/rowids.rs") && (e.contains("Option::unwrap()") || e.contains("Selection is not sorted"))
 }
 
 fn index_types_for(ty: &ColTy) -> Vec<Ix> {
@@ -521,7 +522,7 @@ pub fn run(args: &Args) -> i32 {
                 }
                 let gen = PredGen::new(
                     m,
-                    GenCfg { cols: vec![0, 1, 2], focus: vec![1], max_depth: 3, hostile_literals: true, allow_colcmp: false },
+                    GenCfg { cols: vec![0, 1, 2], focus: vec![1], max_depth: 3, hostile_literals: true, allow_colcmp: false, contains_cols: vec![] },
                 );
                 for pi in 0..preds_per_state {
                     if !report.time_left() {
